@@ -41,6 +41,8 @@ PARTIAL = [
     "si: the `:.{k}f` rounding of the mantissa and the unit suffix are checked at run time only (oracle); the model returns the "
     "unrounded mantissa",
     "TypeError of db/dbm on non-numeric input is checked by the oracle only",
+    "positional twins (documented argument order) and result-aliasing (a modified result must not reappear in a later call) are "
+    "run-time clauses (oracle only)",
     "astype(int) of a parsed float beyond the int64 range is undefined in numpy (model: excluded point `Other`, not compared)",
     "Q: scipy's erfc is assumed to be the Gaussian tail (QSpec); the oracle checks symmetry/monotonicity/Q(0) numerically",
     "theorems over R say nothing about floating-point rounding; float clauses are checked at 1e-9*scale (+1e-12 only for the O(1) "
@@ -307,6 +309,45 @@ def gen_cases(rng, tier):
     return cases
 
 
+# documented positional order of the anchored functions (literal copy of the signatures at /repo 8caea4c)
+SIGNATURES = {"dec2bin": ["num", "digits"], "str2array": ["string", "dtype"], "si": ["x", "unit", "k"], "db": ["x"], "dbm": ["x"],
+              "idb": ["x"], "idbm": ["x"], "Q": ["x"], "gaus": ["x", "mu", "std"], "rcos": ["x", "alpha", "T"]}
+
+
+def _same(a, b):
+    if isinstance(a, np.ndarray) or isinstance(b, np.ndarray) or isinstance(a, np.generic) or isinstance(b, np.generic):
+        a, b = np.asarray(a), np.asarray(b)
+        return a.dtype == b.dtype and a.shape == b.shape and bool(np.array_equal(a, b, equal_nan=(a.dtype.kind in "fc")))
+    return type(a) is type(b) and (a == b or (a != a and b != b))
+
+
+def _probe(U, name, args, notes):
+    """call `name` positionally in the documented order; then (a) by keyword - must be bit-identical; (b) scribble on the
+    returned array and call again - the new result must equal the first, unmodified one and share no memory with it.
+    Returns an untouched copy of the first result."""
+    f = getattr(U, name)
+    r1 = f(*args)
+    snap = r1.copy() if isinstance(r1, np.ndarray) else r1
+    try:
+        rk = f(**dict(zip(SIGNATURES[name], args)))
+        if not _same(snap, rk):
+            notes.append(["positional", name, f"{name}{tuple(SIGNATURES[name])} passed positionally gives {str(snap)[:60]}, by keyword {str(rk)[:60]}"])
+    except Exception as e:  # noqa
+        notes.append(["positional", name, f"keyword call {SIGNATURES[name]} failed: {type(e).__name__}: {e}"[:160]])
+    if isinstance(r1, np.ndarray) and r1.size and r1.flags.writeable:
+        if r1.dtype.kind == "b":
+            r1[...] = ~r1
+        elif r1.dtype.kind in "iu":
+            r1[...] = r1 + 1
+        else:
+            r1[...] = -7.25
+        r2 = f(*args)
+        if not _same(snap, r2) or (isinstance(r2, np.ndarray) and np.shares_memory(r1, r2)):
+            notes.append(["result-aliasing", name, f"{name}: after the first result was modified in place the next call returned "
+                                                   f"{str(np.asarray(r2).ravel()[:8])[:80]}, first was {str(np.asarray(snap).ravel()[:8])[:80]}"])
+    return snap
+
+
 # ---------------------------------------------------------------------------------------------------------------
 # running the real code
 # ---------------------------------------------------------------------------------------------------------------
@@ -354,26 +395,27 @@ def _canon_arr(a):
 def run_impl(case):
     import opticomlib.utils as U
     res = {}
+    notes = []
     k = case["kind"]
     try:
         with warnings.catch_warnings():
             warnings.simplefilter("ignore")
             with time_limit(20):
                 if k == "dec2bin":
-                    out = U.dec2bin(case["v"], case["d"])
+                    out = _probe(U, "dec2bin", (case["v"], case["d"]), notes)
                     res.update(status="ok", bits="".join(str(int(b)) for b in out), dtype=str(out.dtype), n=len(out))
                 elif k == "si":
-                    out = U.si(case["x"], case["unit"], case["k"])
+                    out = _probe(U, "si", (case["x"], case["unit"], case["k"]), notes)
                     res.update(status="ok", out=out)
                 elif k == "s2a":
                     dt = DT[case["dtype"]]
-                    out = U.str2array(case["text"]) if dt is None else U.str2array(case["text"], dt)
+                    out = _probe(U, "str2array", (case["text"],) if dt is None else (case["text"], dt), notes)
                     res.update(status="ok", arr=_canon_arr(out))
                 elif k == "db":
                     x = _present(case["x"], case["form"])
                     y = _present(case["y"], case["form"])
-                    d = U.db(x)
-                    dm = U.dbm(x)
+                    d = _probe(U, "db", (x,), notes)
+                    dm = _probe(U, "dbm", (x,), notes)
                     res.update(status="ok", db=_flat(d), dbm=_flat(dm), idb_db=_flat(U.idb(d)), idbm_dbm=_flat(U.idbm(dm)),
                                db_y=_flat(U.db(y)), db_xy=_flat(U.db(np.asarray(x) * np.asarray(y)
                                                                    if not isinstance(x, float) else x * y)),
@@ -381,8 +423,8 @@ def run_impl(case):
                                shape=list(np.shape(d)), scalar=bool(np.ndim(d) == 0))
                 elif k == "idb":
                     y = _present(case["y"], case["form"])
-                    v = U.idb(y)
-                    w = U.idbm(y)
+                    v = _probe(U, "idb", (y,), notes)
+                    w = _probe(U, "idbm", (y,), notes)
                     res.update(status="ok", idb=_flat(v), idbm=_flat(w), db_idb=_flat(U.db(v)), dbm_idbm=_flat(U.dbm(w)))
                 elif k == "dbneg":
                     x = _present(case["x"], case["form"])
@@ -418,15 +460,15 @@ def run_impl(case):
                     U.sp = Shim()
                     try:
                         x = _present(case["x"], case["form"])
-                        q = U.Q(x)
+                        q = _probe(U, "Q", (x,), notes)
                         qn = U.Q(-np.asarray(x) if not isinstance(x, float) else -x)
                     finally:
                         U.sp = real_sp
-                    res.update(status="ok", q=_flat(q), qneg=_flat(qn), erfc_arg=log[0][0], erfc_val=log[0][1],
+                    res.update(status="ok", q=_flat(q), qneg=_flat(qn), erfc_arg=log[0][0] if log else None, erfc_val=log[0][1] if log else None,
                                n_erfc_calls=len(log))
                 elif k == "gaus":
                     x = _present(case["x"], case["form"])
-                    g = U.gaus(x, case["mu"], case["std"])
+                    g = _probe(U, "gaus", (x, case["mu"], case["std"]), notes)
                     mu = 0.0 if case["mu"] is None else case["mu"]
                     sd = 1.0 if case["std"] is None else case["std"]
                     grid = np.linspace(mu - 12 * sd, mu + 12 * sd, 4001)
@@ -435,7 +477,7 @@ def run_impl(case):
                     res.update(status="ok", g=_flat(g), integral=integral)
                 elif k == "rcos":
                     x = _present(case["x"], case["form"])
-                    r = U.rcos(x, case["alpha"], case["T"])
+                    r = _probe(U, "rcos", (x, case["alpha"], case["T"]), notes)
                     xm = -x if isinstance(x, (int, float)) else (-np.asarray(x) if isinstance(x, np.ndarray)
                                                                   else type(x)(-v for v in x))
                     rm = U.rcos(xm, case["alpha"], case["T"])
@@ -448,6 +490,7 @@ def run_impl(case):
         res.update(status="timeout", detail=str(e))
     except Exception as e:  # noqa
         res.update(status="err", err=exc_enum(e), detail=repr(e)[:200])
+    res["notes"] = notes
     return res
 
 
@@ -483,7 +526,7 @@ def model_requests(case, res):
         return out
     if k == "dbneg":
         return [f"conv.db {enc_f(x)}" for x in case["x"]] + [f"conv.dbm {enc_f(x)}" for x in case["x"]]
-    if k == "Q" and res["status"] == "ok":
+    if k == "Q" and res["status"] == "ok" and res["erfc_val"] is not None:      # no erfc call spied: oracle only
         return [f"conv.q {enc_f(x)} {enc_f(v)}" for x, v in zip(case["x"], res["erfc_val"])]
     if k == "gaus" and res["status"] == "ok":
         mu = 0.0 if case["mu"] is None else case["mu"]
@@ -665,6 +708,8 @@ def oracle(case, res):
     v = []
     if res["status"] == "timeout":
         return [(f"C19:{k}:timeout", f"{k} did not return on {str(case)[:120]}")]
+    for kind_, func, msg in res.get("notes", []):
+        v.append((f"C19:{kind_}:{func}", msg))
     if k == "dec2bin":
         val, d = case["v"], case["d"]
         if d < 0 or val < 0:
